@@ -77,6 +77,80 @@ func ruleInternLookup(c *Ctx) {
 	}
 	c.Oblige("X.dom.intern", ok, f.Pos(), name, "intern fields are looked up with the empty tag",
 		"the wire type and tag bytes of an interned field must be those of the plain field: the codec is looked up without the option and then switched to interning", nil)
+	// every intern field gets the interning version of its *own* codec: what is
+	// stored as the field's codec is either the codec just looked up or the
+	// result of WithInterning() called on exactly that codec - never a codec
+	// carried over from another field (a shared interner has the first field's
+	// type: a null.String after a string would lose its Valid handling)
+	{
+		isLookup := func(v ssa.Value) bool {
+			ex, ok := v.(*ssa.Extract)
+			if !ok || ex.Index != 0 {
+				return false
+			}
+			call, ok := ex.Tuple.(*ssa.Call)
+			return ok && call.Common().IsInvoke() && call.Common().Method.Name() == "CodecForTypeRegistry"
+		}
+		var own func(v ssa.Value, depth int) bool
+		own = func(v ssa.Value, depth int) bool {
+			if depth > 8 {
+				return false
+			}
+			if isLookup(v) {
+				return true
+			}
+			switch x := v.(type) {
+			case *ssa.Phi:
+				for _, e := range x.Edges {
+					if e == ssa.Value(x) {
+						continue
+					}
+					if !own(e, depth+1) {
+						return false
+					}
+				}
+				// a φ of the field loop's header carries a value from an earlier field
+				for _, pr := range x.Block().Preds {
+					if x.Block().Dominates(pr) {
+						return false
+					}
+				}
+				return len(x.Edges) > 0
+			case *ssa.Call:
+				if x.Common().IsInvoke() && x.Common().Method.Name() == "WithInterning" {
+					return own(x.Common().Value, depth+1)
+				}
+			case *ssa.TypeAssert:
+				return own(x.X, depth+1)
+			case *ssa.Extract:
+				return own(x.Tuple, depth+1)
+			case *ssa.ChangeInterface:
+				return own(x.X, depth+1)
+			case *ssa.MakeInterface:
+				return own(x.X, depth+1)
+			}
+			return false
+		}
+		nst := 0
+		for _, b := range f.Blocks {
+			for _, in := range b.Instrs {
+				st, isSt := in.(*ssa.Store)
+				if !isSt {
+					continue
+				}
+				fa, isFA := st.Addr.(*ssa.FieldAddr)
+				if !isFA || typeName(deref(fa.X.Type())) != "description" || fieldName(fa) != "codec" {
+					continue
+				}
+				nst++
+				c.Oblige("X.dom.intern", own(st.Val, 0), st.Pos(), name, "a field's codec is its own lookup, or WithInterning() of it",
+					"the interner of a field is made from the codec looked up for that field in the same pass of the loop; one interner shared between fields has the first field's codec type and table", nil)
+			}
+		}
+		if nst == 0 {
+			c.Oblige("X.dom.intern", false, f.Pos(), name, "store of the field codec", "not found", nil)
+		}
+	}
 	for _, fn := range []string{"plenccodec.StringCodec.WithInterning", "null.nullStringCodec.WithInterning"} {
 		wf := p.ssaFunc(fn)
 		if wf == nil {
@@ -97,7 +171,7 @@ func ruleInternLookup(c *Ctx) {
 		c.Oblige("X.dom.intern", fresh && n > 0, wf.Pos(), fn, "WithInterning returns a new codec",
 			"every tagged field gets its own interner: the returned codec must be allocated by the call, not shared", nil)
 	}
-	c.Floor("X.dom.intern", 3)
+	c.Floor("X.dom.intern", 4)
 }
 
 var internFuncs = []string{"plenccodec.InternedStringCodec.Read", "plenccodec.InternedStringCodec.addString"}
